@@ -254,6 +254,22 @@ PROPS = {
         level_text='Hundreds (quick) to thousands (thorough) of fresh-process launches over permuted but equivalent projects; the hash orders that actually occurred are counted from hook events; held on those.',
         level_note='Trusted: YAML/JSON map semantics (permutation preserves meaning), python canonicalisation. Record ORDER in the output is not part of the statement.',
     ),
+    'C09': dict(
+        engines=[('py', 'c09')],
+        cli=True,
+        technique='runtime monitoring at the process boundary: differential oracle across front ends (CLI styles, stdin, test runner, language server) + offline checker over client-side LSP notification histories with delay injection (hook H4) and a liveness probe',
+        rule=('(a) 25 (quick) / 300 (thorough) random rule sets (1-6 JavaScript rules: messages with variables, empty message, notes, all severities incl. off, with and without fix) x random texts: '
+              '`scan FILE --json=stream|pretty|compact`, `scan --stdin -r` per rule, `--format github`, `--report-style short`, `test --skip-snapshot-tests` with the text filed as the scan says (must pass) and '
+              'flipped (must fail), and publishDiagnostics after didOpen must list the same (ruleId, start, end, message) multiset (GitHub: error/warning/info only; LSP: documented note suffix and id-for-empty-message). '
+              '(b) 40 / 600 notification histories over 1-3 URIs: open / change / close with increasing versions and stale versions delivered late, sent back-to-back; the client answers the server\'s '
+              'workspace/workspaceFolders request immediately or only after k further notifications; failpoints delay the server at its existing await points. After the traffic has been quiet (bounded progress, '
+              'watchdog => inconclusive) the server must still answer a request and the LAST diagnostics published for every open URI must be those of the highest-version text received since its last open '
+              '(reference: a fresh session opening exactly that text). evaluations = CLI invocations + LSP sessions. Non-trivial = front-end cases with >= 2 findings from >= 2 rules, histories with >= 3 notifications on one URI; '
+              'the evidence counts distinct server-side interleavings seen through H4.'),
+        floor={'quick': 200, 'thorough': 3000},
+        level_text='Hundreds of cross-front-end comparisons and tens to hundreds of hostile LSP histories per run; liveness is decided as bounded progress plus a /proc deadlock test; held on the histories and schedules that occurred.',
+        level_note='Trusted: the stdlib JSON-RPC client (drivers/lspclient.py), regex parsers of the github/short formats, the fresh-session reference. Texts contain no ast-grep-ignore comments (C14 covers them).',
+    ),
 }
 
 NOT_APPLICABLE = {}
